@@ -88,7 +88,7 @@ func runC09(c *Ctx) {
 				continue
 			}
 			ok, why := c.onlyFromTeardownAfterClear(fn)
-			if fn == a.Teardown {
+			if fn == a.TeardownCore {
 				ok = SetDominates(fn, func(in ssa.Instruction) bool { return c.isFlagStore(in, false) }, op.In)
 				why = "in the teardown after connected=false"
 			}
